@@ -219,6 +219,24 @@ func (g *generator) arch() byte {
 
 // define (re)defines local slot l.
 func (g *generator) define(s *Stream, l, t int) {
+	// a device may send the very same definition again - or the same field
+	// list for another byte order or another message: nothing of the earlier
+	// definition may be taken over on the strength of a partial comparison
+	if d := s.defs[l]; d != nil && d.global != 0 && g.rng.Intn(8) == 0 {
+		switch g.rng.Intn(3) {
+		case 0:
+			s.Def(l, d.arch, d.global, d.fields, d.dev)
+		case 1:
+			s.Def(l, 1-d.arch, d.global, d.fields, d.dev)
+		default:
+			if d.dev == nil {
+				s.Def(l, d.arch, uint16(g.unknownMsgNum()), d.fields, nil) // same triples for a message without profile
+			} else {
+				s.Def(l, 1-d.arch, d.global, d.fields, d.dev)
+			}
+		}
+		return
+	}
 	arch := g.arch()
 	var dev []DevDef
 	if g.rng.Float64() < g.k.pDev {
